@@ -10,10 +10,9 @@ hand-supplied per-depot capacities `KG = K` and `split0 = h + K`, with the bundl
 (`capacity` of shape `[B, 1]`) `K = 1 ≠ KG`.  The model keeps the two apart so that it is faithful in
 both situations.
 
-Two statements of `_step` broadcast a `[B]` tensor against a `[B, 1]` tensor and thereby read ROW 0 of
-the batch (`Lead`): the raw step length (`torch.where(cond[B,1], 0, current_step_length[B])` scattered
-with a `[B,1]` index picks column 0) and the final `| done`.  `stepWith` takes what row 0 contributes
-as an argument; `step` is the row stepped on its own (batch size 1), where row 0 is the row itself.
+Every statement of `_step` is row-wise (since upstream fix 476fa34 the step length and the `done`
+flag are `[B, 1]` tensors like everything they are combined with), so the batched step is the map of
+`step` over the rows (`batchStep`).
 -/
 import Rl4co.Core.Basic
 import Rl4co.Core.Tour
@@ -60,16 +59,9 @@ def reset (i : Inst) : State :=
 
 def anyIn (n : Nat) (f : Nat → Bool) : Bool := (List.range n).any f
 
-/-- what a row reads from row 0 of its batch during one `_step` -/
-structure Lead where
-  raw  : Int     -- `current_step_length[0]`: distance travelled by row 0 in this step
-  done : Bool    -- `done[0]`
-
 /-- `back_flag` -/
 def backFlag (i : Inst) (s : State) (a : Nat) : Bool := decide (a < i.K) && !(s.avail a)
 
-/-- `done = count_nonzero(available) == 0` after the step -/
-def doneAfter (i : Inst) (s : State) (a : Nat) : Bool := !(anyIn i.N (upd s.avail a false))
 
 /-- `capacity_flag = current_carry >= current_capacity` (operator extracted from the source) -/
 def capFlagOf (i : Inst) (carry : Int) (depot : Nat) : Bool := Params.mdcpdpCapCmp.eval carry (i.cap depot)
@@ -87,7 +79,7 @@ def maskOf (i : Inst) (back : Bool) (avail td : Nat → Bool) (carry : Int) (dep
       -- &= back_flag ; scatter(current_depot, ~back_flag) ; &= ~last_depot_flag ; &= ~carry_flag
       let m1 := if j = depot then !back else (avail j && td j && back)
       let m2 := m1 && !lastDepot && !carryFlag
-      -- scatter(current_depot, gather(current_depot) | done)   (`done` of row 0)
+      -- scatter(current_depot, gather(current_depot) | done[..., None])
       if j = depot then m2 || doneL else m2
     else
       -- available & to_deliver ; pickups &= ~capacity_flag ; &= ~back_flag
@@ -95,7 +87,8 @@ def maskOf (i : Inst) (back : Bool) (avail td : Nat → Bool) (carry : Int) (dep
       let m1 := if j < i.pd then m0 && !capFlag else m0
       m1 && !back
 
-def stepWith (L : Lead) (i : Inst) (s : State) (a : Nat) : State :=
+/-- `_step` -/
+def step (i : Inst) (s : State) (a : Nat) : State :=
   -- new_to_deliver = (current_node + num_loc // 2) % (num_loc + num_depot)
   let newTD := (a + i.h) % i.N
   let back := backFlag i s a
@@ -105,20 +98,16 @@ def stepWith (L : Lead) (i : Inst) (s : State) (a : Nat) : State :=
   let carry' := s.carry + (if i.K ≤ a ∧ a < i.pd then 1 else 0) - (if i.pd ≤ a then 1 else 0)
   -- current_depot = where(back_flag, current_node, current_depot)
   let depot' := if back then a else s.depot
-  -- step length: 0 between two depots; 0 for the way back in open mode; otherwise ROW 0's distance
-  let sl1 := if a < i.K ∧ s.cur < i.K then 0 else L.raw
+  -- step length: 0 between two depots; 0 for the way back in open mode
+  let sl1 := if a < i.K ∧ s.cur < i.K then 0 else i.D s.cur a
   let sl2 := if i.openMode ∧ a < i.K ∧ i.K ≤ s.cur then 0 else sl1
   -- current_length.scatter_add_(-1, current_depot, current_step_length)
   let len' := upd s.len depot' (s.len depot' + sl2)
   -- arrivetime_record.scatter_(-1, current_node, current_length.gather(-1, current_depot))
   let arrive' := upd s.arrive a (len' depot')
   { cur := a, depot := depot', carry := carry', len := len', arrive := arrive',
-    toDeliver := td', avail := avail', mask := maskOf i back avail' td' carry' depot' L.done,
+    toDeliver := td', avail := avail', mask := maskOf i back avail' td' carry' depot' (!(anyIn i.N avail')),
     done := !(anyIn i.N avail') }
-
-/-- the row stepped on its own (batch size 1): row 0 is the row itself -/
-def step (i : Inst) (s : State) (a : Nat) : State :=
-  stepWith { raw := i.D s.cur a, done := doneAfter i s a } i s a
 
 def env : Env Inst State where
   reset := reset
@@ -146,12 +135,8 @@ def reward (m : Mode) (i : Inst) (s : State) : Int :=
   | .minsum => - (lens i s).sum
   | .lateness => - ((lens i s).sum * (i.wDen - i.wNum) + lateSum i s * i.wNum)
 
-/-- One row of the batched `_step` as written: row `r` steps with what row 0 contributes. -/
+/-- The batched `_step`: no statement reads another row. -/
 def batchStep (rows : List (Inst × State)) (acts : List Nat) : List (Inst × State) :=
-  match rows, acts with
-  | (i0, s0) :: _, a0 :: _ =>
-    let L : Lead := { raw := i0.D s0.cur a0, done := doneAfter i0 s0 a0 }
-    List.zipWith (fun (r : Inst × State) a => (r.1, stepWith L r.1 r.2 a)) rows acts
-  | _, _ => []
+  List.zipWith (fun (r : Inst × State) a => (r.1, step r.1 r.2 a)) rows acts
 
 end Rl4co.Mdcpdp
